@@ -54,6 +54,9 @@ use std::backtrace;
 pub type MyBt = std::backtrace::Backtrace;
 pub fn lid(l: &Leaf) -> String { format!("Leaf({})@{}", l.0, addr(l)) }
 pub fn rlid(l: &&'static Leaf) -> String { lid(*l) }
+// an error type of the user's that happens to be called `Backtrace` (it is not std's): with `not(backtrace)` it is an
+// ordinary field, selected as source by the ordinary rules
+pub mod userbt { pub type Backtrace = super::Leaf; }
 pub fn leak(l: Leaf) -> &'static Leaf { Box::leak(Box::new(l)) }
 // a boxed error that has a source of its own: `source()` of the outer type must still be the boxed
 // object itself, not one level further down the chain
@@ -352,6 +355,9 @@ def fillers(rng):
         ("U%d", "", "", "", None, []),
         ("One%d", "(Leaf)", "(Leaf(%d))", "(f0)", 0, [0]),
         ("OneRef%d", "(&'static Leaf)", "(leak(Leaf(%d)))", "(f0)", 0, [0]),
+        ("NamBt%d", " { #[error(not(backtrace))] source: userbt::Backtrace }", " { source: Leaf(%d) }", " { source: f0 }", 0, [0]),
+        ("NamBtOther%d", " { #[error(not(backtrace))] source: userbt::Backtrace, other: i32 }", " { source: Leaf(%d), other: 1 }", " { source: f0, other: _ }", 0, [0]),
+        ("ExBt%d", "(i32, #[error(source, not(backtrace))] userbt::Backtrace)", "(1, Leaf(%d))", "(_, f0)", 0, [0]),
         ("NamRef%d", " { source: &'static Leaf }", " { source: leak(Leaf(%d)) }", " { source: f0 }", 0, [0]),
         ("Nam%d", " { source: Leaf, other: i32 }", " { source: Leaf(%d), other: 1 }", " { source: f0, other: _ }", 0, [0]),
         ("Pair%d", "(i32, i32)", "(%d, 2)", "(_, _)", None, []),
